@@ -24,6 +24,32 @@ def opt_lit(ctx, fn):
     return (lits + tm)[0] if (lits + tm) else r
 
 
+
+def _not_first_guard(fn_hir, scope_body, sep, counter_ids=()):
+    """the separator call runs on every round of the repetition but the first: guarded by a first-row flag (initialised true
+    before the repetition, cleared inside it) or by `counter > 0` on the enumerate() counter of this iteration"""
+    import interp
+    pos, neg = guard_atoms(guards_of(scope_body, sep))
+    for a in neg:
+        a = peel(a, methods=False)
+        if a["k"] == "Path" and a.get("rk") == "Local":
+            fid = a["res"]
+            init_true = any(x["k"] == "Let" and x["pat"].get("id") == fid and render(x.get("init")) == "true" for x in walk(fn_hir))
+            cleared = any(x["k"] == "Assign" and peel(x["l"]).get("res") == fid and render(x["r"]) == "false" for x in walk_exprs(scope_body))
+            set_again = any(x["k"] == "Assign" and peel(x["l"]).get("res") == fid and render(x["r"]) != "false" for x in walk_exprs(scope_body))
+            if init_true and cleared and not set_again:
+                return True
+    for a in pos:
+        ids = {x["res"] for x in walk_exprs(a) if x["k"] == "Path" and x.get("rk") == "Local"}
+        if ids and ids <= set(counter_ids):
+            try:
+                vals = [interp.Interp().ev(a, {i: k for i in ids}) for k in (0, 1, 2, 7)]
+            except interp.Undecided:
+                continue
+            if vals == [False, True, True, True]:
+                return True
+    return False
+
 def r1(ctx):
     """row-separator protocol at every row emission site"""
     n = 0
@@ -46,6 +72,7 @@ def r1(ctx):
                       "first row (`!is_buffered() && found > 1`)")
     # (b), (c), (d): list_search_results
     h = ctx.anchor_hir(LSR)
+    its = find_iterations(h)
     for c in walk_exprs(h):
         if c["k"] == "MCall" and c["m"] == "write_row":
             gs = guards_of(h, c)
@@ -54,42 +81,37 @@ def r1(ctx):
             if not rep:
                 ctx.obligation(True)   # single-shot row (one aggregate row)
                 continue
-            scope = rep[-1][1]
-            sp = [s for s in walk_exprs(scope) if s["k"] == "MCall" and s["m"] == "write_row_separator"]
+            inner = [it for it in its if any(y is c for y in walk_exprs(it["body"]))]
+            it = min(inner, key=lambda i_: len(list(walk_exprs(i_["body"])))) if inner else None
+            scope = it["body"] if it else rep[-1][1]
+            counters = pat_binders(it["pat"])[:1] if it and "enumerate" in render(it["iter"]) else ()
+            sp = [s_ for s_ in walk_exprs(scope) if s_["k"] == "MCall" and s_["m"] == "write_row_separator"]
             ok = len(sp) == 1
             if ok:
-                g = [t for t in guards_of(scope, sp[0]) if t[0] == "if"]
-                # first-iteration guard: `if first { first = false } else { separator }`
-                ok = any((not t[2]) and peel(t[1], methods=False)["k"] == "Path" for t in g) or \
-                    any(t[2] and render(t[1]).startswith("!") for t in g)
                 order = list(walk_exprs(scope))
-                ok = ok and order.index(sp[0]) < order.index(c)
+                ok = _not_first_guard(h, scope, sp[0], counters) and order.index(sp[0]) < order.index(c)
             ctx.obligation(ok)
             if not ok:
                 kind = "grouped" if rep[-1][0] == "closure" else "loop"
                 ctx.violation("separator/list_search_results/%s" % kind, ctx.where(LSR, c),
                               "rows written in a loop are not separated: no write_row_separator guarded by a first-row flag "
-                              "precedes write_row in the loop body")
+                              "(or the iteration counter) precedes write_row in the loop body")
     # buffered drain: pieces are whole rows; separator between them
     drains = []
-    for x in walk_exprs(h):
-        if x["k"] == "Loop":
-            w = [c for c in walk_exprs(x) if c["k"] == "MCall" and c["m"] == "write_fmt" and "piece" in render(c)]
-            if w:
-                drains.append((x, w))
+    for it in its:
+        w = [c for c in walk_exprs(it["body"]) if c["k"] == "MCall" and c["m"] == "write_fmt" and any(x["k"] == "Path" and x.get("res") in pat_binders(it["pat"]) for x in walk_exprs(c))]
+        if w and "output_buffer" in render(Locals(h).chase(peel(it["iter"]))) + render(it["iter"]):
+            drains.append((it, w))
     n += 1
     ok = len(drains) == 1
     if ok:
-        loop, w = drains[0]
-        sp = [s for s in walk_exprs(loop) if s["k"] == "MCall" and s["m"] == "write_row_separator"]
+        it, w = drains[0]
+        counters = pat_binders(it["pat"])[:1] if "enumerate" in render(it["iter"]) else ()
+        sp = [s_ for s_ in walk_exprs(it["body"]) if s_["k"] == "MCall" and s_["m"] == "write_row_separator"]
         ok = len(sp) == 1
         if ok:
-            g = [t for t in guards_of(loop, sp[0]) if t[0] == "if"]
-            ok = any((not t[2]) and render(peel(t[1], methods=False)) == "first" for t in g)
-            asg = [a for a in walk_exprs(loop) if a["k"] == "Assign" and render(a["l"]) == "first" and render(a["r"]) == "false"]
-            ok = ok and len(asg) == 1
-            order = list(walk_exprs(loop))
-            ok = ok and order.index(sp[0]) < order.index(w[0])
+            order = list(walk_exprs(it["body"]))
+            ok = _not_first_guard(h, it["body"], sp[0], counters) and order.index(sp[0]) < order.index(w[0])
     ctx.obligation(ok)
     if not ok:
         ctx.violation("separator/list_search_results/buffered", ctx.where(LSR),
@@ -140,6 +162,37 @@ def r2(ctx):
                 ok = False
                 ctx.violation("escape/html/bypass", ctx.where(esc, y),
                               "the HTML escaper returns `%s` on some path without applying the entity replacements" % render(y["e"])[:60])
+    # the same decided by evaluation when the cell function can be read by the finite interpreter (whatever its shape: helper
+    # inlined, chain reordered harmlessly, ..): the cell of each probe text must be <td>..</td> around a text without raw
+    # < > and bare &, which unescapes to the probe
+    import html as _html
+    import interp
+    f = ctx.prog.fns[fe]
+    probes = ["plain", "a<b", "a>b", "a&b", "<&>", "&lt;", "&amp;lt;", "x < y && y > z", "\"q\" 'r'", "é<"]
+    evald = {}
+    try:
+        for pr in probes:
+            env = {}
+            for p_ in f["params"]:
+                if p_.get("k") == "Bind":
+                    env[p_["id"]] = {"record": pr, "name": "col", "is_last": False}.get(p_.get("name"), interp.Opaque(p_.get("name", "?")))
+            evald[pr] = interp.Interp(prog=ctx.prog).run(h, env)
+    except interp.Undecided:
+        evald = None
+    if evald is not None:
+        bad = []
+        for pr, cell in evald.items():
+            if isinstance(cell, interp.V) and cell.name == "Option::Some":
+                cell = cell.args[0]
+            good = isinstance(cell, str) and cell.startswith("<td>") and cell.endswith("</td>")
+            if good:
+                inner = cell[4:-5]
+                good = "<" not in inner and ">" not in inner and not re.search(r"&(?!(amp|lt|gt|quot|apos|#\d+|#x[0-9a-fA-F]+);)", inner) and _html.unescape(inner) == pr
+            if not good:
+                bad.append((pr, cell))
+        ok = not bad
+        if bad:
+            ctx.violation("escape/html/cell", ctx.where(fe), "the HTML cell of the value %r is %r: it is not `<td>` + text without raw < > & that unescapes to the value + `</td>`" % bad[0])
     ctx.obligation(ok)
     ctx.covered("HTML cell escaping (template and replacement table)", 1 + len(covered), distinct_keys=sorted(x[0] for x in covered),
                 sample={"template": tm, "escapes": sorted(covered)})
@@ -270,15 +323,39 @@ def r5(ctx):
     ctx.obligation(ok)
     if not ok:
         ctx.violation("flat/row_ended", ctx.where(FMT["flat"] + "::row_ended"), "a flat row must end with the row separator")
-    # write_row: start, items in order with is_last = (pos == len - 1), end
-    wr = ctx.anchor_hir(WRITER + "::write_row")
-    calls = [c["m"] for c in walk_exprs(wr) if c["k"] == "MCall" and c["m"].startswith("write_row_")]
-    item = [c for c in walk_exprs(wr) if c["k"] == "MCall" and c["m"] == "write_row_item"]
-    ok = calls == ["write_row_start", "write_row_item", "write_row_end"] and len(item) == 1 and \
-        render(item[0]["args"][-1]).replace(" ", "") == "(pos==(len-1))" and "enumerate" in render(wr["stmts"][-1] if wr["stmts"] else wr)
+    # write_row: start, every item in order (name, value, last one flagged), end - the call trace of write_row on rows of
+    # 0, 1 and 3 cells is read by the finite interpreter
+    import interp
+    wfn = WRITER + "::write_row"
+    wr = ctx.anchor_hir(wfn)
+    ps = ctx.prog.fns[wfn]["params"]
+    ok = len(ps) == 3
+    calls = None
+    if ok:
+        for items in ([], [("a", "1")], [("a", "1"), ("b", "2"), ("c", "3")]):
+            eff = []
+
+            def call(node, recv, args, it, env, eff=eff):
+                m = node.get("m")
+                if m and m.startswith("write_row_"):
+                    eff.append((m,) + tuple(a for a in args if isinstance(a, (bool, str))))
+                    return (interp.V("Result::Ok", [()]),)
+                return None
+            env = {ps[0]["id"]: {"formatter": interp.Opaque("formatter")}, ps[1]["id"]: interp.Opaque("writer"), ps[2]["id"]: list(items)}
+            try:
+                res = interp.Interp(call=call, prog=ctx.prog).run(wr, env)
+            except interp.Undecided as e:
+                ok = False
+                calls = "cannot evaluate write_row: %s" % e
+                break
+            want = [("write_row_start",)] + [("write_row_item", k, v, i == len(items) - 1) for i, (k, v) in enumerate(items)] + [("write_row_end",)]
+            if eff != want or not (isinstance(res, interp.V) and res.name == "Result::Ok"):
+                ok = False
+                calls = "for a row of %d cells the calls are %s" % (len(items), eff)
+                break
     ctx.obligation(ok)
     if not ok:
-        ctx.violation("writer/write_row", ctx.where(WRITER + "::write_row"), "write_row must emit row start, every item in order (last one flagged), row end; found %s" % calls)
+        ctx.violation("writer/write_row", ctx.where(wfn), "write_row must emit row start, every item in order (last one flagged), row end; %s" % calls)
     # the five writer methods call their own formatter hook
     hooks = {"write_header": "header", "write_footer": "footer", "write_row_separator": "row_separator",
              "write_row_start": "row_started", "write_row_end": "row_ended", "write_row_item": "format_element"}
